@@ -40,6 +40,20 @@ Proof. vm_compute. reflexivity. Qed.
 Example ex_parse_err_huge_int : parse ex_ext (fuel_of [40; 109; 41; 32; 123; 32; 108; 101; 116; 32; 120; 32; 61; 32; 52; 50; 57; 52; 57; 54; 55; 50; 57; 54; 32; 125]) [40; 109; 41; 32; 123; 32; 108; 101; 116; 32; 120; 32; 61; 32; 52; 50; 57; 52; 57; 54; 55; 50; 57; 54; 32; 125] = PErr 6 (0, 14) [].
 Proof. vm_compute. reflexivity. Qed.
 
+(* ParseError::ExpectedQuantifier (variant 1) is no longer produced: a character other than `?` `*` `+`
+   after a global's name is left to the caller.  `global x!` now fails where the `!` is read as the
+   start of a stanza's query that never reaches its `{`: UnexpectedEOF at the end of the input;
+   `global x! {}` hands the query text `! ` to tree-sitter (an external: here it accepts). *)
+Example ex_parse_err_global_bang : parse ex_ext (fuel_of [103; 108; 111; 98; 97; 108; 32; 120; 33]) [103; 108; 111; 98; 97; 108; 32; 120; 33] = PErr 10 (0, 9) [].
+Proof. vm_compute. reflexivity. Qed.
+(* for every text and whatever the externals answer, parsing never returns ExpectedQuantifier (variant
+   1 of error_obs); parse_quantifier itself returns no error at all *)
+Theorem parse_never_expected_quantifier : forall X text,
+  match parse X (fuel_of text) text with PErr v _ _ => v <> 1 | _ => True end.
+Proof. exact parse_never_expected_quantifier_lemma. Qed.
+Theorem parse_quantifier_never_fails : forall s, match parse_quantifier s with RErr _ => False | _ => True end.
+Proof. exact parse_quantifier_no_error. Qed.
+
 (* the two oracle hypotheses of parse_total cannot be dropped: if tree-sitter accepted a query but
    dropped the appended capture, or rejected the merged source, the parser panics *)
 Definition ex_ext_dropped : ext :=
